@@ -349,7 +349,7 @@ func (f *vsF) forgeRND(cur shwap.RowNamespaceData, ns libshare.Namespace, r int)
 		}
 		return p
 	}
-	switch s.Choose(10, "rownd_forgery") {
+	switch s.Choose(11, "rownd_forgery") {
 	case 0: // drop the first share, narrower proof
 		if cnt >= 2 {
 			if p := prove(from+1, from+cnt); p != nil {
@@ -418,6 +418,21 @@ func (f *vsF) forgeRND(cur shwap.RowNamespaceData, ns libshare.Namespace, r int)
 			shs := append(append([]libshare.Share{}, cur.Shares...), cur.Shares[len(cur.Shares)-1])
 			f.step("share-duplicated")
 			return shwap.RowNamespaceData{Shares: shs, Proof: cur.Proof}, true
+		}
+	case 10: // inject shares under an absence proof
+		if len(cur.Shares) == 0 && cur.Proof != nil {
+			n := 1 + f.rng.IntN(2)
+			shs := append([]libshare.Share{}, row[:min(n, f.w)]...)
+			f.step("shares-injected-under-absence-proof")
+			return shwap.RowNamespaceData{Shares: shs, Proof: cur.Proof}, true
+		}
+		if cnt >= 1 {
+			for _, an := range f.a.Absent {
+				if o, err := f.honestRND(f.a, an, r); err == nil && len(o.Shares) == 0 && o.Proof != nil {
+					f.step("absence-proof-with-the-namespace-shares")
+					return shwap.RowNamespaceData{Shares: cur.Shares[:1], Proof: o.Proof}, true
+				}
+			}
 		}
 	case 9: // reorder
 		if len(cur.Shares) >= 2 {
